@@ -263,8 +263,15 @@ func checkProdCase(c prodCase, rec *Rec) error {
 				idx++
 			}
 		}
-		var d *graph.DenseGraph
-		if err = build(func() { d = graph.NewDense(n, b) }); err != nil {
+		// the slice lives in a larger array of the caller's (spare capacity behind it, filled with a marker)
+		arena := make([]byte, len(b), len(b)+40)
+		copy(arena, b)
+		for i := len(b); i < cap(arena); i++ {
+			arena[:cap(arena)][i] = 0xEE
+		}
+		b = arena
+		var d, d2 *graph.DenseGraph
+		if err = build(func() { d = graph.NewDense(n, b); d2 = graph.NewDense(n, b) }); err != nil {
 			return err
 		}
 		if err = sameAs(desc, d, want); err != nil {
@@ -275,6 +282,35 @@ func checkProdCase(c prodCase, rec *Rec) error {
 		}
 		if err = sameAs(desc+" after the caller modified the slice it passed in", d, want); err != nil {
 			return err
+		}
+		// two graphs made from the same slice grow independently, and neither grows into the caller's array
+		w1, w2 := want.Copy(), want.Copy()
+		all := make([]int, n)
+		for i := range all {
+			all[i] = i
+		}
+		if err = build(func() {
+			d.AddVertex(all)
+			d2.AddVertex([]int{})
+			d.AddVertex([]int{0})
+			d2.AddVertex([]int{d2.N() - 1})
+		}); err != nil {
+			return err
+		}
+		w1.AddVertex(all)
+		w2.AddVertex(nil)
+		w1.AddVertex([]int{0})
+		w2.AddVertex([]int{w2.N - 1})
+		if err = sameAs(desc+" grown by two vertices (first of two graphs made from one slice)", d, w1); err != nil {
+			return err
+		}
+		if err = sameAs(desc+" grown by two vertices (second of two graphs made from one slice)", d2, w2); err != nil {
+			return err
+		}
+		for i := len(b); i < cap(arena); i++ {
+			if arena[:cap(arena)][i] != 0xEE {
+				return fmt.Errorf("%s: growing the graph wrote into the caller's array behind the slice it passed in (offset %d)", desc, i)
+			}
 		}
 		rec.NonTrivial(want.M() > 0 || n <= 1)
 		return nil
